@@ -224,7 +224,14 @@ def main(check_module, argv=None):
     # ---- replay every candidate on the real package
     known = load_known(pid)
     violations, known_hits, unreproduced = [], [], []
-    for c in cands[:40]:
+    per_why = {}
+    for c in cands:
+        if len(violations) >= 6:
+            break
+        wk = (c["oracle"], c["why"].split(" [")[0])
+        per_why[wk] = per_why.get(wk, 0) + 1
+        if per_why[wk] > 3 or sum(per_why.values()) > 60:
+            continue
         res = run_oracle(mod.__name__, c["oracle"], c["args"])
         c["replay"] = res
         if res.get("violated") is True:
